@@ -166,6 +166,12 @@ func MayCrash(site string) {
 	}
 }
 
+// ForceAssign stores src into the interface variable *dst even if src's type does not
+// implement dst's interface type (engine only: used to hand model objects to code that
+// takes interfaces with unexported methods). Natively it panics: harnesses use it only
+// under Symbolic().
+func ForceAssign(dst any, src any) { panic("verifrt.ForceAssign has no native counterpart") }
+
 // CrashNow unwinds to the enclosing RunUntilCrash (no-op outside one).
 func CrashNow() {
 	if crashArmed {
